@@ -51,24 +51,22 @@ theorem inv4_rFrame {s s' : State} (h : Inv4 s) (hs : stepRFrame s = some s') : 
   unfold stepRFrame at hs
   split at hs
   · next p rest hr hin =>
-    split at hs
-    · simp at hs
-    · injection hs with hs; subst hs
-      have hd : s.dropped = [] := dropped_nil h (by simp [hr])
-      obtain ⟨a, b, c, c', d, e, f⟩ := h
-      constructor
-      · show s.peerAll = List.map In.frame (s.decoded ++ [p]) ++ rest
-        rw [a, hin]; simp
-      · show s.decoded ++ [p] = s.delivered ++ pending (.deliver p) ++ s.dropped
-        rw [b, hr, hd]; simp [pending]
-      · show s.dropped ≠ [] → _
-        intro h0; exact absurd hd h0
-      · exact c'
-      · exact d
-      · show s.recvPkts + 1 = (s.decoded ++ [p]).length
-        rw [e]; simp
-      · show s.recvBytes + p.size = sizes (s.decoded ++ [p])
-        rw [f, sizes_append']
+    injection hs with hs; subst hs
+    have hd : s.dropped = [] := dropped_nil h (by simp [hr])
+    obtain ⟨a, b, c, c', d, e, f⟩ := h
+    constructor
+    · show s.peerAll = List.map In.frame (s.decoded ++ [p]) ++ rest
+      rw [a, hin]; simp
+    · show s.decoded ++ [p] = s.delivered ++ pending (.deliver p) ++ s.dropped
+      rw [b, hr, hd]; simp [pending]
+    · show s.dropped ≠ [] → _
+      intro h0; exact absurd hd h0
+    · exact c'
+    · exact d
+    · show s.recvPkts + 1 = (s.decoded ++ [p]).length
+      rw [e]; simp
+    · show s.recvBytes + p.size = sizes (s.decoded ++ [p])
+      rw [f, sizes_append']
   · simp at hs
 
 theorem inv4_rPush {cfg : Cfg} {s s' : State} (h : Inv4 s) (hs : stepRPush cfg s = some s') : Inv4 s' := by
@@ -207,6 +205,15 @@ theorem inv4_step {cfg : Cfg} {s s' : State} (a : Action) (h1 : Inv1 s) (h : Inv
   case wWrite => unfold stepWWrite writeOne at hs; inv4_other h hs
   case wFlush => unfold stepWFlush at hs; inv4_other h hs
   case wWgDone => unfold stepWWgDone at hs; inv4_other h hs
+  case rArm => unfold stepRArm at hs; inv4_mv h hs
+  case rChk =>
+    unfold stepRChk at hs
+    split at hs
+    · next hr =>
+      injection hs with hs; subst hs
+      exact inv4_move h rfl rfl rfl rfl rfl rfl rfl rfl rfl (by simp [hr, pending])
+        (by show pending (if _ then _ else _) = []; split <;> simp [pending]) (by simp [hr])
+    · simp at hs
   case rFrame => exact inv4_rFrame h hs
   case rErr => unfold stepRErr at hs; inv4_mv h hs
   case rNil => unfold stepRNil at hs; inv4_mv h hs
